@@ -2,6 +2,7 @@ import CnbVerif.Props.C18
 #print axioms CnbVerif.C18.resolve_maximal
 #print axioms CnbVerif.C18.partial_resolve_maximal
 #print axioms CnbVerif.C18.none_iff_nothing_matches
+#print axioms CnbVerif.C18.non_matching_artifacts_have_no_influence
 #print axioms CnbVerif.C18.hex_roundtrip
 #print axioms CnbVerif.C18.checksum_accepted_iff_grammar
 #print axioms CnbVerif.C18.checksum_value
